@@ -105,7 +105,7 @@ def Located (P : Prog F) (root cur : Nat) : Nat → Expr F → Prop
     Located P root cur pc x ∧ P.instrs[pc + len x]? = some (.startSideEffect, none) ∧
     Located P root cur (pc + len x + 1) b ∧ P.instrs[pc + len x + 1 + len b]? = some (.endSideEffect, none)
   | pc, .nested id => ∃ k, P.instrs[pc]? = some (.put, some k) ∧ P.consts[k]? = some (.expr id)
-  | pc, .emptyNested => ∃ k, P.instrs[pc]? = some (.put, some k) ∧ P.consts[k]? = some (.expr root)
+  | pc, .emptyNested => ∃ k, P.instrs[pc]? = some (.put, some k) ∧ P.consts[k]? = some (.expr cur)
   | pc, .reapply x =>
     Located P root cur pc x ∧ P.instrs[pc + len x]? = some (.updateValue, none) ∧
     P.instrs[pc + len x + 1]? = some (.jumpTo, some cur)
@@ -214,9 +214,8 @@ def wfE : Expr F → Bool
   | .pair l r | .applyTo l r | .seq l r | .infixApply l _ r => wfE l && wfE r
   | .reapply x | .prefixApply _ x | .suffixApply x _ => wfE x
   | .list items => wfEList items
-  -- an out-of-line root has its own jump entry, which is what `{ }` refers to there (builder oddity)
-  | .cond _ c t => wfE c && wfE t && enFree t
-  | .and l r | .or l r => wfE l && wfE r && enFree r
+  | .cond _ c t => wfE c && wfE t
+  | .and l r | .or l r => wfE l && wfE r
   -- an else-chain has a final (non-conditional) arm: without one no value is pushed when no arm matches (finding #6)
   | .chain arms final => wfEArms arms && (match final with | some e => wfE e | none => false)
   -- a restart from inside a side-effect block would leave the block's copy of `$` on the value stack
@@ -226,7 +225,7 @@ def wfEList : List (Expr F) → Bool
   | x :: xs => wfE x && wfEList xs
 def wfEArms : List (Bool × Expr F × Expr F) → Bool
   | [] => true
-  | (_, c, t) :: rest => wfE c && wfE t && enFree t && wfEArms rest
+  | (_, c, t) :: rest => wfE c && wfE t && wfEArms rest
 end
 
 mutual
@@ -240,8 +239,8 @@ def wfC : Expr F → Bool
   | .pair l r | .applyTo l r | .seq l r | .infixApply l _ r => wfC l && wfC r
   | .reapply x | .prefixApply _ x | .suffixApply x _ => wfC x
   | .list items => wfCList items
-  | .cond _ c t => wfC c && wfC t && enFree t
-  | .and l r | .or l r => wfC l && wfC r && enFree r
+  | .cond _ c t => wfC c && wfC t
+  | .and l r | .or l r => wfC l && wfC r
   | .chain arms final => wfCArms arms && (match final with | some e => wfC e | none => true)
   | .sideAfter x b => wfC x && wfC b && noR b
 def wfCList : List (Expr F) → Bool
@@ -249,7 +248,7 @@ def wfCList : List (Expr F) → Bool
   | x :: xs => wfC x && wfCList xs
 def wfCArms : List (Bool × Expr F × Expr F) → Bool
   | [] => true
-  | (_, c, t) :: rest => wfC c && wfC t && enFree t && wfCArms rest
+  | (_, c, t) :: rest => wfC c && wfC t && wfCArms rest
 end
 
 /-! ### unfolding lemmas for the else-chain (its equations are split by the shape of the final arm) -/
